@@ -616,8 +616,13 @@ fn write_evidence(check: &dyn Check, tier: Tier, seed: u64, agg: &Agg, wall: f64
         "wall_s": wall,
         "violations": agg.violations.len(),
     });
-    let path = dir.join(format!("{}.json", check.id()));
-    let tmp = dir.join(format!(".{}.json.tmp", check.id()));
+    // A build flavour (e.g. the AVX build of C11) writes next to the main file.
+    let stem = match std::env::var("VSIM_FLAVOUR") {
+        Ok(f) if !f.is_empty() => format!("{}.{}", check.id(), f),
+        _ => check.id().to_string(),
+    };
+    let path = dir.join(format!("{stem}.json"));
+    let tmp = dir.join(format!(".{stem}.json.tmp"));
     if std::fs::write(&tmp, serde_json::to_string_pretty(&ev).unwrap()).is_err()
         || std::fs::rename(&tmp, &path).is_err()
     {
